@@ -152,6 +152,11 @@ def dag(draw, *, max_nodes=12, leaf_profile='plain', kinds=None, p_alias=0.55,
       names_ = draw(st.lists(st.sampled_from(['x', 'y', 'child', 'k1', 'k2']), unique=True, min_size=1, max_size=4))
       kw = {nm: ref() for nm in names_}
       node = {'k': 'B', 'bt': 'DictConfig', 'fn': {'kind': 'sym', 'name': 'things:f2'}, 'pos': [], 'kw': kw, 'edits': []}
+      if draw(st.booleans()):
+        # a key set by attribute assignment (also one named like the **kwargs parameter)
+        nm = draw(st.sampled_from(['kwargs', 'late']))
+        node['edits'].append(['setattr', nm, ref()])
+        names_ = names_ + [nm]
       if tags and draw(st.booleans()):
         node['tags'] = [[draw(st.sampled_from(names_)), draw(st.sampled_from(['TagA', 'TagB', 'TagX']))]]
     elif kind == 'Bpo3':
